@@ -60,13 +60,29 @@ theorem tnSels_vr : ∀ (v : View) (xs : List Sel), tnSels s v (V.selList xs) = 
   | v, x :: xs => by simp only [Vr.selList, tnSels, List.map_append, tnSel_vr v x, tnSels_vr v xs]
 end
 
+theorem tnVarDef_vr (w : View) (v : VarDef) : tnVarDef s w (V.varDef v) = (tnVarDef s w v).map V.nv := by
+  obtain ⟨nm, ty, df, ds, hc⟩ := v
+  cases df with
+  | none =>
+    simp only [tnVarDef, Vr.varDef, Option.map_none, List.map_append, tnDirs_vr]
+    rfl
+  | some dv =>
+    simp only [tnVarDef, Vr.varDef, Option.map_some, List.map_append, tnDirs_vr, valueNodes_vr]
+    simp [withView, Vr.nv, List.map_map, Function.comp_def, Vr.node, Vr.varDef]
+
+theorem tnVarDefs_vr (w : View) (vs : List VarDef) :
+    (vs.map V.varDef).flatMap (tnVarDef s w) = (vs.flatMap (tnVarDef s w)).map V.nv := by
+  induction vs with
+  | nil => rfl
+  | cons v vs ih => simp only [List.map_cons, List.flatMap_cons, List.map_append, tnVarDef_vr, ih]
+
 theorem tnDef_vr (x : Def) : tnDef s (V.defn x) = (tnDef s x).map V.nv := by
   cases x with
   | op k nm vars dirs id sels =>
     have h1 := view_enter_vr V s (.operation k nm vars dirs sels) {}
     have h2 := fun w => view_enter_vr V s (.selectionSet id sels) w
     simp only [Vr.node] at h1 h2
-    simp only [Vr.defn, tnDef, h1, h2, List.map_cons, List.map_append, varDefsNodes_vr, withView_vr, tnDirs_vr, tnSels_vr]
+    simp only [Vr.defn, tnDef, h1, h2, List.map_cons, List.map_append, tnVarDefs_vr, tnDirs_vr, tnSels_vr]
     rfl
   | frag n on dirs id sels =>
     have h1 := view_enter_vr V s (.fragmentDef n on dirs) {}
@@ -160,7 +176,7 @@ theorem varDefFor_vr (hinj : ∀ a b, V.var a = V.var b → a = b) (d : Doc) (o 
   rw [this, ← List.map_reverse, find?_varDef_vr V hinj]
 
 theorem hasNonNullDefault_vr (vd : VarDef) : (V.varDef vd).hasNonNullDefault = vd.hasNonNullDefault := by
-  obtain ⟨nm, ty, df⟩ := vd
+  obtain ⟨nm, ty, df, ds, hc⟩ := vd
   cases df with
   | none => rfl
   | some dv => cases dv <;> rfl
